@@ -321,7 +321,7 @@ func GenText(t *rapid.T, s *Spec) []byte {
 	var rs []rune
 	mode := 0
 	var stack []int
-	steps := ri(t, 1, 8, "steps")
+	steps := ri(t, 1, 12, "steps")
 	for i := 0; i < steps; i++ {
 		roll := ri(t, 0, 19, "noise")
 		if roll == 0 {
@@ -330,6 +330,21 @@ func GenText(t *rapid.T, s *Spec) []byte {
 		}
 		m := s.Modes[mode]
 		r := m.Rules[ri(t, 0, len(m.Rules)-1, "rule")]
+		// steer the walk: go deeper while shallow, come back once deep
+		if want := map[bool]string{true: "push", false: "pop"}[len(stack) < 2 && i < steps/2+1]; ri(t, 0, 9, "steer") < 6 {
+			var cands []*Rule
+			for _, c := range m.Rules {
+				for _, a := range c.Actions {
+					if a.Kind == want {
+						cands = append(cands, c)
+						break
+					}
+				}
+			}
+			if len(cands) > 0 {
+				r = cands[ri(t, 0, len(cands)-1, "steered")]
+			}
+		}
 		budget := 14
 		before := len(rs)
 		Sample(t, s, r.E, &rs, &budget)
